@@ -100,7 +100,7 @@ func genSession(rng *vh.Rng, inspector bool) []sessInput {
 			s := fmt.Sprintf("%s = %s + %d; rec(%d, %s)", a, a, k, i, a)
 			in = sessInput{Src: ":debug " + s + "\n", Equiv: s, Kind: "ok:cmd debug", logs: true}
 		case x < 17:
-			in = sessInput{Src: []string{":help\n", ":copyright\n", ":package\n", ":unload \"no/such/pkg\"\n", ":debug\n", ":inspect\n"}[rng.Intn(6)], Kind: "ok:cmd"}
+			in = sessInput{Src: []string{":help\n", ":copyright\n", ":env g0\n", ":unload \"no/such/pkg\"\n", ":debug\n", ":inspect\n"}[rng.Intn(6)], Kind: "ok:cmd"}
 		case x < 18 && inspector:
 			in = sessInput{Src: fmt.Sprintf(":inspect %s + %d\n", a, k), Kind: "ok:cmd inspect"}
 		case x < 19 && len(ins) >= 4 && rng.Chance(1, 4):
@@ -276,8 +276,13 @@ func sessionStream(a *vh.Args, rng *vh.Rng, rep *vh.Report, wd *vh.Watchdog, n i
 			g.Inspector = &nopInspector{}
 		}
 		pr.Arm(0, "")
+		// the debugger mode that `:debug` selects (applyDebugOp(DebugOpStep): ExecFlags.Debug, Signals.Debug, DebugDepth)
+		// stays selected - after a successful :debug too - until the next evaluation selects DebugOpContinue on entry:
+		// both snapshots are taken after a plain evaluation of `0`
+		pr.Eval("0")
 		before := pr.Snapshot()
 		note := runSession(a, pr, in, s)
+		pr.Eval("0")
 		after := pr.Snapshot()
 		g.Options &^= opt.set
 		if note != "" {
